@@ -138,7 +138,8 @@ def hooks_present():
     try:
         if not os.path.isdir(os.path.join(B6, "verifhook")):
             return False
-        return "verifhook.Point(\"service.evaluate.upgrade\")" in open(os.path.join(B6, "grpc/service.go")).read()
+        return ("verifhook.Point(\"service.evaluate.rlocked\")" in open(os.path.join(B6, "grpc/service.go")).read() and
+                "verifhook.Point(\"functions.addworld.found\")" in open(os.path.join(B6, "api/functions/change.go")).read())
     except OSError:
         return False
 
@@ -146,6 +147,40 @@ def hooks_present():
 def base_case(reqs, mode, path="grpc"):
     return {"mode": mode, "path": path, "worlds": WORLDS, "init_worlds": INIT_WORLDS, "feats": FEATS, "tags": TAGS,
             "base": BASE, "reqs": reqs, "sig": sig(reqs)}
+
+
+def tlc(ctx, module, cfg_text, files, timeout=900):
+    """ctx.tlc, with an optional result cache (SERVICE_TLC_CACHE=<dir>) used ONLY when trying many mutants of the Go
+    code in a row: TLC's output depends on the spec and the configuration list, not on /repo."""
+    cache = os.environ.get("SERVICE_TLC_CACHE")
+    if not cache:
+        return ctx.tlc(module, cfg_text=cfg_text, files=files, timeout=timeout)
+    import hashlib
+    import pickle
+    from vlib import SPEC, TLCRun
+    h = hashlib.sha1()
+    h.update(open(os.path.join(SPEC, "Service.tla"), "rb").read())
+    h.update(cfg_text.encode())
+    for k in sorted(files):
+        h.update(k.encode() + files[k].encode())
+    path = os.path.join(cache, h.hexdigest() + ".pickle")
+    if os.path.exists(path):
+        d = pickle.load(open(path, "rb"))
+        r = TLCRun()
+        r.__dict__.update(d)
+        ctx.tlc_runs.append(r)
+        ctx.states += r.distinct
+        ctx.transitions += r.generated
+        ctx.checker_cmds.append("tlc -config %s_gen.cfg %s.tla (cached result)" % (module, module))
+        print("tlc %s: cached result generated=%d distinct=%d" % (module, r.generated, r.distinct), flush=True)
+        return r
+    r = ctx.tlc(module, cfg_text=cfg_text, files=files, timeout=timeout)
+    os.makedirs(cache, exist_ok=True)
+    d = dict(r.__dict__)
+    d["out"] = ""
+    pickle.dump(d, open(path + ".tmp", "wb"))
+    os.replace(path + ".tmp", path)
+    return r
 
 
 def build(ctx):
